@@ -230,5 +230,47 @@ def dualq():
         F('UDQ_mul_point', [r, d, P('p', (3,))], lambda r, d, p: UnitDualQuaternion(_uq(r), Quaternion(d)) * p, 'UnitDualQuaternion * point'),
     ]
 
+def multi():
+    """per-value methods and operators on 2-valued objects (C09: result i is the method applied to value i)"""
+    from spatialmath import Twist3, Twist2
+    L = []
+    for cname, (cls, sh) in _POSE.items():
+        A, B, C = P('A', sh), P('B', sh), P('C', sh)
+        two = (lambda cls: lambda a, b: cls([a, b], check=False))(cls)
+        mk = (lambda cls: lambda M: cls(M, check=False))(cls)
+        def f(name, params, call, doc):
+            L.append(F(f"{cname}_{name}", params, call, f"{cname}: {doc}"))
+        f('inv_M', [A, B], (lambda two: lambda a, b: out(two(a, b).inv()))(two), '2-valued X.inv()')
+        f('div_M1', [A, B, C], (lambda two, mk: lambda a, b, c: out(two(a, b) / mk(c)))(two, mk), '2-valued / 1-valued')
+        f('div_1M', [A, B, C], (lambda two, mk: lambda a, b, c: out(mk(a) / two(b, c)))(two, mk), '1-valued / 2-valued')
+        f('pow2_M', [A, B], (lambda two: lambda a, b: out(two(a, b) ** 2))(two), '2-valued X ** 2')
+        f('R_M', [A, B], (lambda two: lambda a, b: tuple(two(a, b).R))(two), '2-valued X.R')
+        if cname != 'SE3': f('eq_M', [A, B, C], (lambda two, mk: lambda a, b, c: tuple(two(a, b) == mk(c)))(two, mk), '2-valued == 1-valued')
+        if cname != 'SE3': f('ne_M', [A, B, C], (lambda two, mk: lambda a, b, c: tuple(two(a, b) != mk(c)))(two, mk), '2-valued != 1-valued')
+        if cname in ('SE2', 'SE3'):
+            f('t_M', [A, B], (lambda two: lambda a, b: two(a, b).t)(two), '2-valued X.t')
+        if cname in ('SO2', 'SE2'):
+            f('theta_M', [A, B], (lambda two: lambda a, b: tuple(two(a, b).theta()))(two), '2-valued theta()')
+            f('theta_M_deg', [A, B], (lambda two: lambda a, b: tuple(two(a, b).theta(unit='deg')))(two), '2-valued theta(unit=deg)')
+            f('theta_deg', [A], (lambda mk: lambda a: mk(a).theta(unit='deg'))(mk), 'theta(unit=deg)')
+    S6, T6 = P('S', (6,)), P('T', (6,))
+    def tw3(s, t):
+        x = Twist3(); x.data = [s, t]; return x
+    L += [F('Twist3_pitch_M', [S6, T6], lambda s, t: tuple(tw3(s, t).pitch()), '2-valued Twist3.pitch()'),
+          F('Twist3_v_M', [S6, T6], lambda s, t: tw3(s, t).v, '2-valued Twist3.v'),
+          F('Twist3_w_M', [S6, T6], lambda s, t: tw3(s, t).w, '2-valued Twist3.w'),
+          F('Twist3_inv_M', [S6, T6], lambda s, t: out(tw3(s, t).inv()), '2-valued Twist3.inv()'),
+          F('Twist3_mul_scalar_M', [S6, T6, P('k')], lambda s, t, k: out(tw3(s, t) * k), '2-valued Twist3 * scalar')]
+    q, p_ = P('q', (4,)), P('p', (4,))
+    def uq2(a, b):
+        x = UnitQuaternion(); x.data = [a, b]; return x
+    def q2(a, b):
+        x = Quaternion(); x.data = [a, b]; return x
+    L += [F('UQ_inv_M', [q, p_], lambda a, b: out(uq2(a, b).inv()), '2-valued UnitQuaternion.inv()'),
+          F('Q_conj_M', [q, p_], lambda a, b: out(q2(a, b).conj()), '2-valued Quaternion.conj()'),
+          F('Q_norm_M', [q, p_], lambda a, b: tuple(q2(a, b).norm()), '2-valued Quaternion.norm()'),
+          F('Q_add_M1', [q, p_, P('r', (4,))], lambda a, b, c: out(q2(a, b) + Quaternion(c)), '2-valued Quaternion + 1-valued')]
+    return L
+
 def groups():
-    return {'Poses': poses(), 'Quats': quats(), 'Twists': twists(), 'Plucker': pluckers(), 'Spatial': spatial(), 'DualQuat': dualq()}
+    return {'Poses': poses(), 'Quats': quats(), 'Twists': twists(), 'Plucker': pluckers(), 'Spatial': spatial(), 'DualQuat': dualq(), 'Multi': multi()}
